@@ -346,6 +346,7 @@ def run_count(blt, opts, budget=10, want_ballots=True, lowprec=None, keepE=False
                 S=scale_of(V), geps=geps_of(V), exactq=bool(V.exact),
                 intq=bool(getattr(E.rule, 'integer_quota', False)),
                 batch=str(getattr(E.rule, 'defeat_batch', '')),
+                omega10=int(getattr(E.rule, 'omega10', 0) or 0),
             )
             signal.alarm(budget)
             try:
